@@ -889,3 +889,11 @@ mutant("C16-M36", "C16", "R16m", "remove_comp leaves the compartment in the prog
 mutant("C16-M37", "C16", "R16m", "remove_program does not refresh the covout cache", PR, "ProgramSet.remove_program", "                    self.covouts[(par, pop)].update_outcomes()", "                    pass")
 mutant("C16-M38", "C16", "R16m", "remove_par keeps the parameter entry", PR, "ProgramSet.remove_par", "        del self.pars[code_name]", "        pass")
 twin("C16-T9", "C16", "remove_pop tests the key the other way round", PR, "ProgramSet.remove_pop", "if pop_name == code_name:", "if code_name == pop_name:")
+mutant("C14-M37", "C14", "R14k", "years whose total already looks right skip the bounded projection (seeded C14f)", OP, "TotalSpendConstraint.constrain_instructions", "            x1_array = constrain_sum_bounded(x0_array, total_spend, lb, ub)", "            if np.isclose(x0_array.sum(), total_spend):\n                continue\n            x1_array = constrain_sum_bounded(x0_array, total_spend, lb, ub)")
+twin("C14-T13", "C14", "a debug message in front of the projection", OP, "TotalSpendConstraint.constrain_instructions", "            x1_array = constrain_sum_bounded(x0_array, total_spend, lb, ub)", "            if not np.isclose(x0_array.sum(), total_spend):\n                logger.debug('rescaling year %s', t)\n            x1_array = constrain_sum_bounded(x0_array, total_spend, lb, ub)")
+mutant("C10-M29", "C10", "R10z", "restart year snapped to the grid by truncating a raw quotient (seeded C10g)", PS, "ParameterSet.set_initialization", "        self.initialization = Initialization.from_result(res, parset=self, year=year)", "        if year is not None:\n            year = res.t[int((year - res.t[0]) / res.dt)]\n        self.initialization = Initialization.from_result(res, parset=self, year=year)")
+twin("C10-T4", "C10", "restart year snapped to the grid by rounding", PS, "ParameterSet.set_initialization", "        self.initialization = Initialization.from_result(res, parset=self, year=year)", "        if year is not None:\n            year = res.t[int(round((year - res.t[0]) / res.dt))]\n        self.initialization = Initialization.from_result(res, parset=self, year=year)")
+mutant("C12-M33", "C12", "R12y", "explicit interaction outcomes stored after the loop (seeded C12f)", PR, "Covout.__init__", "                self._interactions[combo] = float(val) - self.baseline", "            self._interactions[combo] = float(val) - self.baseline")
+mutant("C08-M28", "C08", "R08i", "unlink empties the link lists in place (seeded C08f)", M, "Compartment.unlink", "        self.outlinks = [x.id for x in self.outlinks]", "        self._outlink_ids = [x.id for x in self.outlinks]\n        self.outlinks.clear()")
+mutant("C03-M17", "C03", "R03y", "transfer units read once per source population (seeded C03f)", M, "Model.build", "par.units = transfer_parameter.ts[pop_target].units.strip().split()[0].strip().lower()", "par.units = next(iter(transfer_parameter.ts.values())).units.strip().split()[0].strip().lower()")
+twin("C03-T8", "C03", "transfer units through a local inside the loop", M, "Model.build", "                        par.units = transfer_parameter.ts[pop_target].units.strip().split()[0].strip().lower()", "                        unit_text = transfer_parameter.ts[pop_target].units\n                        par.units = unit_text.strip().split()[0].strip().lower()")
